@@ -1,4 +1,5 @@
 //! mlv — correspondence harness between the Coq model (/verif/coq) and the crate in /repo.
+mod c03;
 mod c11;
 mod c12;
 mod c19;
@@ -104,6 +105,10 @@ fn main() {
                 o.extra.push(("exhaustive_bep42_fail".into(), match bad { None => "null".to_string(), Some((ip, r)) => format!("[{}, {}]", ip, r) }));
             }
             o.write(&out, "c19", "From MLV Require Import model.Bytes model.Id model.Check19.", "c19case", "run19", shards);
+        }
+        "c03" | "c04" | "c15" => {
+            let o = c03::generate(seed, scale, cmd);
+            o.write(&out, cmd, "From MLV Require Import model.Bytes model.Id model.Node model.Server model.Check11 model.Check03.", "c03full", "run03", shards);
         }
         "c11" => {
             let o = c11::generate(seed, scale);
